@@ -217,3 +217,60 @@ def r6_vertex_numbering(ctx):
 
 
 RULES += [r6_vertex_numbering]
+
+
+def r7_stability_flag(ctx):
+    ctx.rule("C16.r7", "lazily closed graphs: normalize() tells GraphOps::close_after_widen which vertices are STABLE; the wrapper built "
+             "from the set of UNSTABLE vertices must therefore answer non-membership (otherwise normalisation re-closes the wrong "
+             "vertices and an explicit normalize() changes the result of later operations)", floor=3)
+    files = ("include/crab/domains/split_dbm.hpp", "include/crab/domains/split_oct.hpp", "include/crab/domains/sparse_dbm.hpp")
+    GO = "include/crab/domains/graphs/graph_ops.hpp"
+    # premise read from GraphOps: is_stable[v] true -> V_STABLE
+    prem = False
+    for fn in ctx.db.fns(GO, name="close_after_widen"):
+        for x in walk(fn["body"]):
+            if x.get("k") == "cond":
+                t, e = strip(x.get("t")), strip(x.get("e"))
+                if isinstance(t, dict) and t.get("n") == "V_STABLE" and isinstance(e, dict) and e.get("n") == "V_UNSTABLE" and \
+                        any(is_param(y, fn, 2) for y in walk(x.get("c"))):
+                    prem = True
+    if not prem:
+        ctx.undecided("GraphOps::close_after_widen no longer reads its third argument as `is_stable[v] ? V_STABLE : V_UNSTABLE`",
+                      {"pk": "GraphOps::close_after_widen", "file": GO, "line": 0, "cls": "", "name": "close_after_widen", "psig": ""}, None)
+        return
+    n = 0
+    for f in files:
+        for fn in ctx.db.fns(f, name="normalize"):
+            for c in walk(fn["body"]):
+                if not is_call(c, name="close_after_widen") or len(c.get("a", [])) < 3:
+                    continue
+                w = strip_move(c["a"][2])
+                # vert_set_wrap_t(unstable)
+                wraps_unstable = any(x.get("k") == "mem" and "unstable" in (x.get("n") or "") for x in walk(w))
+                wcls = (callee(w) or {}).get("cls") if isinstance(w, dict) and w.get("k") == "ctor" else None
+                if not wraps_unstable or not wcls:
+                    ctx.undecided("normalize: the stability argument of close_after_widen is not a wrapper of the unstable set", fn, c)
+                    continue
+                ops = [o for o in ctx.db.fns(f, name="operator[]") if o.get("cls") == wcls]
+                if not ops:
+                    ctx.undecided("operator[] of %s not found" % wcls, fn, c)
+                    continue
+                n += 1
+                rs = rets(ops[0]["body"])
+                pp = cmp_parts(rs[0].get("v")) if len(rs) == 1 else None
+                member = None
+                if pp and any(is_call(y, name="find") for y in walk(rs[0]["v"])) and any(is_call(y, name="end") for y in walk(rs[0]["v"])):
+                    member = {"!=": True, "==": False}.get(pp[0])
+                if member is False:
+                    ctx.ok("normalize: is_stable[v] = (v not in unstable)", fn, c)
+                elif member is True:
+                    ctx.bad("%s::normalize passes the set of UNSTABLE vertices to close_after_widen through a wrapper whose operator[] answers "
+                            "membership: close_after_widen reads it as `is stable`, so it re-closes the vertices that did NOT change and skips "
+                            "the destabilised ones" % (fn.get("cpk") or "").split("::")[-1], fn, c, sig="stability-flag-inverted")
+                else:
+                    ctx.undecided("cannot read the membership test of the stability wrapper", ops[0], ops[0]["body"])
+    if n == 0:
+        ctx.fail("rule C16.r7: no close_after_widen call found in normalize()")
+
+
+RULES += [r7_stability_flag]
